@@ -3,6 +3,7 @@ Proof: lean/Props/C11.lean.  Tie: generated abstract specs -> independent XML re
 -> pydap.parsers.dmr.dmr_to_dataset -> canonical dump in walk order, vs the Lean model on ElementTree's tree of the
 same text; get_atomic_attr on single attribute elements; the server's DMR for generated datasets with groups.
 Oracle: the abstract spec itself (lookup by group path, type, shape, fully qualified dims, maps, attributes)."""
+import re
 import warnings
 
 import numpy as np
@@ -12,6 +13,41 @@ from oracle import gen_dap4 as G
 from oracle import refdap4 as R
 
 LEVEL = "proof"
+
+BYTE_KEY = "C11.byte_attr_leading_zero"
+_LEADING_ZERO = re.compile(r"^\s*[+-]?0[0-9_]*[1-9]")
+
+
+def in_byte_class(attrs):
+    """finding class: an attribute of type Byte with a value written with leading zeros (not a Python literal)"""
+    return any(a["type"] == "Byte" and any(_LEADING_ZERO.match(t) for _, t in a["values"]) for a in attrs)
+
+
+def spec_attrs(spec):
+    out = []
+
+    def rec(g):
+        for it in g["items"]:
+            if it["k"] == "attr":
+                out.append(it)
+            elif it["k"] == "var":
+                out.extend(it["attrs"])
+            elif it["k"] == "group":
+                rec(it)
+    rec(spec)
+    return out
+
+
+BYTE_WITNESS = {"k": "attr", "name": "flag", "type": "Byte", "values": [["text", "007"]]}
+
+
+def byte_witness_fails(fns):
+    from xml.etree import ElementTree as ET
+    try:
+        _, val = fns[1](ET.fromstring("\n".join(R._attr_xml(BYTE_WITNESS, ""))))
+        return val != 7
+    except BaseException:
+        return True
 
 
 def load():
@@ -44,7 +80,8 @@ def judge_spec(ctx, fns, spec, text, ds, dump, cls_of=None):
     case = {"kind": "spec", "spec": spec}
     size = len(text)
     if ds is None:
-        ctx.oracle_fail("DMR of a valid spec does not parse", case, dump, "a dataset", size=size)
+        ctx.oracle_fail("DMR of a valid spec does not parse", case, dump, "a dataset", size=size,
+                        cls=BYTE_KEY if in_byte_class(spec_attrs(spec)) and dump == "(err SyntaxError)" else None)
         return
     declared = list(R.walk_vars(spec))
     got_n = len(list(walk(ds, BaseType)))
@@ -144,7 +181,8 @@ def check_attrs(ctx, fns, n):
             exp = G.expected_attr(a)
         if isinstance(val, BaseException) or not G.attr_equal(val, exp):
             ctx.oracle_fail("attribute value differs from its declared type/values", {"kind": "attr", "attr": a},
-                            impl, repr(exp), size=len(xml))
+                            impl, repr(exp), size=len(xml),
+                            cls=BYTE_KEY if in_byte_class([a]) and impl == "(err SyntaxError)" else None)
         ctx.count(("attr", xml), True, tag="attr:%s:%d" % (a["type"], len(a["values"])))
     ctx.correspond("get_atomic_attr", cases)
 
@@ -236,7 +274,8 @@ def run(ctx):
     ctx.proof_phase()
     fns = load()
     explore(ctx, fns, ctx.tier)
-    return ctx.finish(search=lambda c: explore(c, fns, "thorough"))
+    return ctx.finish(search=lambda c: explore(c, fns, "thorough"),
+                      witnesses={BYTE_KEY: lambda: byte_witness_fails(fns)})
 
 
 def explore(ctx, fns, tier):
